@@ -34,6 +34,23 @@ func (Env) Fast(xs ...interface{}) interface{} { return len(xs) }
 // Keep returns its argument list itself: a result that aliases whatever buffer the call was given.
 func (Env) Keep(xs ...interface{}) interface{} { return xs }
 
+// Profile is embedded by pointer in PtrEnv and left nil: reading a field promoted through it fails.
+type Profile struct{ Nick string }
+
+// PtrEnv is passed to runs by pointer, so its fields are addressable: a run must not store into it.
+type PtrEnv struct {
+	*Profile
+	Name string
+	Tags []string
+}
+
+func (e *PtrEnv) HasProfile() bool { return e.Profile != nil }
+
+func EnvP() *PtrEnv { return &PtrEnv{Name: "bob", Tags: []string{"x"}} }
+
+// PtrSources are run on the shared *PtrEnv.
+var PtrSources = []string{`[HasProfile(), Name, Nick]`, `Name + Tags[0]`, `Nick`}
+
 func EnvA() Env {
 	return Env{S: "aXb", Pat: "^a", I: 2, A: []int{1, 2, 3, 4}, M: map[string]int{"a": 1}, O: &Obj{N: 3, Name: "o"}, OS: []*Obj{{N: 1}, {N: 2}}}
 }
@@ -72,7 +89,22 @@ func CompileAll(env interface{}) ([]*vm.Program, error) {
 		}
 		out = append(out, p)
 	}
+	for _, s := range PtrSources {
+		p, err := expr.Compile(s, expr.Env(&PtrEnv{}))
+		if err != nil {
+			return nil, fmt.Errorf("%q: %v", s, err)
+		}
+		out = append(out, p)
+	}
 	return out, nil
+}
+
+// Source returns the text of program i of CompileAll.
+func Source(i int) string {
+	if i < len(Sources) {
+		return Sources[i]
+	}
+	return PtrSources[i-len(Sources)]
 }
 
 // Result of one run in comparable form.
